@@ -52,8 +52,9 @@ structure Pre where
   pendOut : Nat := 0               -- memOut (event 300)
   memLimit : Nat := 0
   bad : Option String := none
+  openTail : Bool := false         -- a further Stream was announced (event 143) but none of its items has been seen yet
 
-def Pre.push (p : Pre) (b : Block) : Pre := { p with blocks := p.blocks.push b, fresh := false }
+def Pre.push (p : Pre) (b : Block) : Pre := { p with blocks := p.blocks.push b, fresh := false, openTail := false }
 
 def Pre.modify (p : Pre) (i : Nat) (f : Block → Block) : Pre := { p with blocks := p.blocks.modify i f }
 
@@ -77,7 +78,7 @@ def prescanStep (p : Pre) (e : Ev) : Pre :=
   | 107 =>
     if !p.fresh then p
     else if e.a != 0 then p.push { kind := .badHeader, ret := e.a }
-    else { (p.push { kind := .thr, ret := END }) with memLimit := e.c }
+    else { (p.push { kind := .thr, ret := END, memThr := e.b }) with memLimit := e.c }   -- memThr/memOut split is refined at 109/300
   | 109 => { p with pendThr := e.a }
   | 300 => { p with pendOut := e.b }
   | 110 => if e.a != 0 then { p with bad := some "unmodelled: lzma_block_decoder_init failed in a worker set-up" } else p
@@ -101,7 +102,7 @@ def prescanStep (p : Pre) (e : Ev) : Pre :=
     | none => p
   | 134 => { p with lastRow := e.a }
   | 140 => if e.a == 0 then { p with drained := true } else p
-  | 143 => { p with syncOpen := none }      -- Index + Footer + Padding were fine, the next Stream starts
+  | 143 => { p with syncOpen := none, openTail := true }      -- Index + Footer + Padding were fine, the next Stream starts
   | 2 =>
     match p.syncOpen with
     | some i =>
@@ -112,7 +113,10 @@ def prescanStep (p : Pre) (e : Ev) : Pre :=
     | none => p
   | _ => p
 
-def prescan (evs : Array Ev) : Pre := evs.foldl prescanStep {}
+def prescan (evs : Array Ev) : Pre :=
+  let p := evs.foldl prescanStep {}
+  -- a Stream whose header never became complete: an item the application never finishes supplying
+  if p.openTail then p.push { kind := .badHeader, ret := 10 } else p
 
 -- ---------------------------------------------------------------------------------------------
 -- pass 2: replay
@@ -124,6 +128,9 @@ structure D where
   call : Option (Bool × Bool × Nat) := none   -- harness event 1 waiting for event 100
   nlabels : Nat := 0
   failFast : Bool := false
+  hold : List Int := []            -- workers whose partial update was enabled inside a not yet completed rowIter
+  stop : Bool := false             -- LZMA_MEMLIMIT_ERROR was returned: the application may change the limit, the item list no longer applies
+  deferred : List Ev := []         -- their events, replayed right after that rowIter (they commute with the rest of it)
 
 abbrev M := Except String
 
@@ -191,7 +198,8 @@ def D.onEvent (d : D) (e : Ev) : M D := do
       | .ret r =>
         let r' := if r == TIMED_OUT then 0 else r
         check (r' == e.a || (r' == 0 && okLike e.a)) s!"return value: model {r}, implementation {e.a}"
-        d.fire .ret
+        let d ← d.fire .ret
+        pure { d with stop := e.a == 6 }
       | _ => throw "lzma_code returned but the model's main thread is not at a return point"
   | 3 => d.fire .endCall
   | 150 => pure d
@@ -209,7 +217,7 @@ def D.onEvent (d : D) (e : Ev) : M D := do
   | 105 => if e.a == 1 then pure d else pure d
   | 106 => d.fire .blockInit
   | 107 => if e.a == 0 then d.fire .blockInit else pure d
-  | 142 => pure d
+  | 142 => if e.b == 1 then d.fire .seqError else pure d
   -- ---- read_output_and_wait -------------------------------------------------------------------
   | 130 =>
     let d ← d.enterRow
@@ -243,10 +251,15 @@ def D.onEvent (d : D) (e : Ev) : M D := do
     | .rowDone _ r cs =>
       check (r == e.a) s!"read_output_and_wait returns: model {r}, implementation {e.a}"
       check (cs == (e.b == 1)) s!"block_can_start: model {cs}, implementation {e.b}"
-      check ((d.s.pend != .none) == (e.c != 0)) s!"pending_error set: model {repr d.s.pend}, implementation {e.c}"
+      -- (memlimit_stop is modelled as a header error with code 6; the implementation keeps pending_error clear there)
+      check (match d.s.pend with | .none => e.c == 0 | .flag => e.c != 0 | .code r => e.c != 0 || r == 6)
+        s!"pending_error set: model {repr d.s.pend}, implementation {e.c}"
       (← d.fire .rowDone).settle
     | pc => throw s!"implementation leaves read_output_and_wait but the model is at {repr pc}"
-  | 123 => let _ ← d.worker e; d.fire .stopOne
+  | 123 =>
+    let _ ← d.worker e
+    let d ← if d.s.pc == .seq && d.s.seq == .thrRun && d.failFast then d.fire .ffStop else pure d
+    d.fire .stopOne
   | 108 => pure d
   | 116 => pure d
   | 140 => pure d
@@ -255,17 +268,21 @@ def D.onEvent (d : D) (e : Ev) : M D := do
     let d ← d.fire .memUpdate
     check (d.s.memInUse == e.b) s!"mem_in_use: model {d.s.memInUse}, implementation {e.b}"
     pure d
+  | 126 =>
+    -- get_thread's critical section: the decision (reuse / create) is taken here
+    let d ← d.fire .getThread
+    if e.a == 1 then
+      let i ← d.worker e
+      check (d.s.thr == some i) s!"reused worker: model {repr d.s.thr}, implementation {i}"
+    else
+      check (d.s.thr == some (d.s.workers.length - 1) && (getW d.s (d.s.workers.length - 1)).pc == .top
+             && d.ptrs.all (·.2 != d.s.workers.length - 1))
+        "the implementation found no free thread but the model reused one"
+    pure d
   | 124 =>
-    let d := { d with ptrs := (e.ptr, d.s.workers.length) :: d.ptrs.filter (·.1 != e.ptr) }
-    check (e.a == d.s.workers.length) "threads_initialized differs"
-    let d ← d.fire .getThread
-    check (d.s.thr == some e.a) "a new thread was created but the model reused one"
-    pure d
-  | 125 =>
-    let i ← d.worker e
-    let d ← d.fire .getThread
-    check (d.s.thr == some i) s!"reused worker: model {repr d.s.thr}, implementation {i}"
-    pure d
+    check (e.a + 1 == d.s.workers.length) "threads_initialized differs"
+    pure { d with ptrs := (e.ptr, e.a) :: d.ptrs.filter (·.1 != e.ptr) }
+  | 125 => pure d
   | 110 => if e.a != 0 then throw "unmodelled: lzma_block_decoder_init failed" else pure d
   | 111 =>
     let d ← d.fire .assign
@@ -273,7 +290,8 @@ def D.onEvent (d : D) (e : Ev) : M D := do
     check ((getW d.s i).inSize == e.a) "in_size differs"
     pure d
   | 112 => d.fire .startThr
-  | 113 => d.fire .enablePartial
+  | 113 => pure d
+  | 127 => if d.s.pc == .init5 then d.fire .enablePartial else pure d
   | 114 =>
     let i ← d.worker e
     check (d.s.thr == some i) "coder->thr differs"
@@ -305,7 +323,7 @@ def D.onEvent (d : D) (e : Ev) : M D := do
   | 300 => pure d
   | 301 => pure d
   | 302 => pure d
-  | 210 => pure d
+  | 210 => if d.s.pc == .init5 then d.fire .enablePartial else pure d
   -- ---- workers ------------------------------------------------------------------------------------------
   | 200 =>
     let i ← d.worker e
@@ -321,7 +339,7 @@ def D.onEvent (d : D) (e : Ev) : M D := do
     let i ← d.worker e
     let d ← d.fire (.wLoop i (causeW (getW d.s i)))
     let w := getW d.s i
-    check (w.pc == .wait && w.st == .run) "worker waits for input but the model decided otherwise"
+    check (w.pc == .wait && w.st == .run) s!"worker waits for input but the model decided otherwise ({repr w})"
     check (w.inFilled == e.a && w.inPos == e.b) "worker snapshot (in_filled, in_pos) differs"
     pure d
   | 203 =>
@@ -358,11 +376,26 @@ def D.onEvent (d : D) (e : Ev) : M D := do
   | 209 => let i ← d.worker e; d.fire (.wCleanup i)
   | n => throw s!"unknown event id {n}"
 
+/-- Event dispatch with the one reordering the model's granularity needs: `rowIter` is atomic in the model and enables the
+    partial update of the next worker at its end, while the implementation does it in the middle of that critical section
+    (event 210) and the worker may react (under its own mutex only) before the section ends (event 131). Those worker steps
+    touch nothing the rest of the section reads, so they are replayed right after it. -/
+def D.feed (d : D) (e : Ev) : M D := do
+  let inRow := match d.s.pc with | .row _ _ | .rowWait _ _ => true | _ => false
+  if e.id == 210 && inRow then pure { d with hold := e.ptr :: d.hold }
+  else if e.id ≥ 200 && e.id < 210 && d.hold.contains e.ptr then pure { d with deferred := d.deferred ++ [e] }
+  else if e.id == 131 then
+    let d ← d.onEvent e
+    let evs := d.deferred
+    evs.foldlM (fun d e => d.onEvent e) { d with hold := [], deferred := [] }
+  else d.onEvent e
+
 def replay (cfg : Cfg) (evs : Array Ev) (pre : Pre) : String := Id.run do
   let mut d : D := { s := init cfg pre.blocks.toList, failFast := cfg.failFast }
   let mut k := 0
   for e in evs do
-    match d.onEvent e with
+    if d.stop then break
+    match d.feed e with
     | .ok d' => d := d'
     | .error msg => return s!"reject at={k} ev={e.id}.{e.tid}.{e.ptr}.{e.a}.{e.b}.{e.c} why={msg}"
     k := k + 1
